@@ -138,7 +138,6 @@ type challenge struct {
 
 func parseChallenge(input string) (*challenge, error) {
 	const ws = " \n\r\t"
-	const qs = `"`
 	s := strings.Trim(input, ws)
 	if !strings.HasPrefix(s, "Digest ") {
 		return nil, errDigestBadChallenge
@@ -154,30 +153,47 @@ func parseChallenge(input string) (*challenge, error) {
 		}
 		switch r[0] {
 		case "realm":
-			c.realm = strings.Trim(r[1], qs)
+			c.realm = unquoteParam(r[1])
 		case "domain":
-			c.domain = strings.Trim(r[1], qs)
+			c.domain = unquoteParam(r[1])
 		case "nonce":
-			c.nonce = strings.Trim(r[1], qs)
+			c.nonce = unquoteParam(r[1])
 		case "opaque":
-			c.opaque = strings.Trim(r[1], qs)
+			c.opaque = unquoteParam(r[1])
 		case "stale":
-			c.stale = strings.Trim(r[1], qs)
+			c.stale = unquoteParam(r[1])
 		case "algorithm":
-			c.algorithm = strings.Trim(r[1], qs)
+			c.algorithm = unquoteParam(r[1])
 		case "qop":
-			c.qop = strings.Trim(r[1], qs)
+			c.qop = unquoteParam(r[1])
 		case "charset":
-			if strings.ToUpper(strings.Trim(r[1], qs)) != "UTF-8" {
+			if strings.ToUpper(unquoteParam(r[1])) != "UTF-8" {
 				return nil, errDigestCharset
 			}
 		case "userhash":
-			c.userhash = strings.Trim(r[1], qs)
+			c.userhash = unquoteParam(r[1])
 		default:
 			return nil, errDigestBadChallenge
 		}
 	}
 	return c, nil
+}
+
+// unquoteParam returns the value of a challenge parameter: the content of a quoted-string
+// with its quoted-pairs resolved (RFC 7230 section 3.2.6), anything else with the double
+// quotes around it removed.
+func unquoteParam(v string) string {
+	if len(v) == 0 || v[0] != '"' {
+		return strings.Trim(v, `"`)
+	}
+	var sb strings.Builder
+	for i := 1; i < len(v) && v[i] != '"'; i++ {
+		if v[i] == '\\' && i+1 < len(v) {
+			i++
+		}
+		sb.WriteByte(v[i])
+	}
+	return sb.String()
 }
 
 // splitChallengeParams splits the parameter list of a challenge at the commas
@@ -239,15 +255,15 @@ func (c *credentials) authorize() (string, error) {
 		sl = append(sl, fmt.Sprintf(`userhash=%s`, c.userhash))
 	}
 	sl = append(sl, fmt.Sprintf(`username="%s"`, escapeQuoted(c.username)))
-	sl = append(sl, fmt.Sprintf(`realm="%s"`, c.realm))
-	sl = append(sl, fmt.Sprintf(`nonce="%s"`, c.nonce))
-	sl = append(sl, fmt.Sprintf(`uri="%s"`, c.digestURI))
+	sl = append(sl, fmt.Sprintf(`realm="%s"`, escapeQuoted(c.realm)))
+	sl = append(sl, fmt.Sprintf(`nonce="%s"`, escapeQuoted(c.nonce)))
+	sl = append(sl, fmt.Sprintf(`uri="%s"`, escapeQuoted(c.digestURI)))
 	sl = append(sl, fmt.Sprintf(`response="%s"`, resp))
 	if c.algorithm != "" {
 		sl = append(sl, fmt.Sprintf(`algorithm=%s`, c.algorithm))
 	}
 	if c.opaque != "" {
-		sl = append(sl, fmt.Sprintf(`opaque="%s"`, c.opaque))
+		sl = append(sl, fmt.Sprintf(`opaque="%s"`, escapeQuoted(c.opaque)))
 	}
 	if c.messageQop != "" {
 		sl = append(sl, fmt.Sprintf("qop=%s", c.messageQop))
